@@ -1,6 +1,7 @@
 import Tftp.Driver.Util
 import Tftp.Model.Sender
 import Tftp.Model.Receiver
+import Tftp.Model.ReceiverQ
 /-! Line protocol for the window / sender / receiver models. -/
 namespace Tftp.Driver
 open Tftp
@@ -13,6 +14,10 @@ def parseContent (s : String) : Option Bytes :=
   match s.splitOn ":" with
   | ["gen", l, sd] => do pure (genBytes (← l.toNat?) (← sd.toNat?))
   | ["zero", l] => do pure (List.replicate (← l.toNat?) 0)
+  | ["pat", h, l] => do
+    let p ← bytesOfHex h
+    let n ← l.toNat?
+    if p.isEmpty then none else pure ((List.range n).map fun i => p.getD (i % p.length) 0)
   | [h] => bytesOfHex h
   | _ => none
 
@@ -156,6 +161,15 @@ def rRunStop (c : RCfg) (full : Bool) : RState → List REv → List String → 
       rRunStop c full r.1 es (showAcks full r.2 :: acc)
     | _ => (acc.reverse, s)
 
+def rRunStopQ (c : RCfg) (full : Bool) : RState → Option Nat → List REv → List String → List String × RState
+  | s, _, [], acc => (acc.reverse, s)
+  | s, room, e :: es, acc =>
+    match s.status with
+    | .running =>
+      let r := rStepQ c s room e
+      rRunStopQ c full r.1 r.2.1 es (showAcks full r.2.2 :: acc)
+    | _ => (acc.reverse, s)
+
 def rcvLine (toks : List String) : String :=
   match toks with
   | "rcv" :: b :: w :: rep :: clean :: snap :: evs =>
@@ -174,7 +188,14 @@ def rcvLine (toks : List String) : String :=
         let full := snap = "full"
         -- `nospace`: the handle is writable in name only (a link to /dev/full): every non-empty write fails
         let s0 := if snap = "nospace" then rInitUnwritable c else rInit c
-        let r := rRunStop c full s0 es []
+        -- `quota:<n>`: the target takes n bytes (RLIMIT_FSIZE on the harness side), the file is read at every ACK
+        let quota : Option Nat := match snap.splitOn ":" with
+          | ["quota", n] => n.toNat?
+          | _ => none
+        let full := full || quota.isSome
+        let r := match quota with
+          | some _ => rRunStopQ c full s0 quota es []
+          | none => rRunStop c full s0 es []
         let fin := match r.2.status with
           | .running => "open"
           | _ => match rFinalFile c r.2 with
